@@ -94,17 +94,13 @@ def literal_overlap(t) -> bool:
     go(t)
     inner = set()
     for s in strs:
-        m = re.search(r"(['\"])(.*?)\1", s)
-        if m and m.start() > 0:
+        m = re.fullmatch(r"([^'\"]+)'([^'\"]*)'([^'\"]+)", s)
+        if m:
             inner.add(m.group(2))
     dictIO = native.dictio()
     f = dictIO.NativeFormatter()
-    for s in strs:
-        if s in inner:
-            w = f.format_value(s)
-            if w[:1] in "'\"":
-                return True
-    return False
+    # the other leaf is written as the very same single-quoted literal
+    return any(s in inner and f.format_value(s) == "'" + s + "'" for s in strs)
 
 
 KNOWN_PREDICATES = {
